@@ -403,3 +403,106 @@ func c16r7(r *R) {
 		}())
 	}
 }
+
+func init() {
+	register("C15", "R6", 1, "the PROXY header is awaited under its own timeout: in the connection goroutine the address of the accepted connection (which on a PROXY-protocol listener reads the header under the header timeout) is asked for before the TLS handshake starts - otherwise the handshake's first read waits for the header and the handshake timeout cuts the peer off early", c15r6)
+	register("C19", "R6", 8, "inline private keys never reach a message: the value of a key-file option (KeyFile, CAKeyFile - a path or a data: URI carrying the key itself) is only compared, loaded or passed through the redactor; it is never formatted, concatenated or boxed for a logger, in any function it is handed to", c19r6)
+}
+
+func c15r6(r *R) {
+	hl := r.method("internal/martian", "Proxy", "handleLoop")
+	var hs ssa.Instruction
+	var addrCalls []ssa.Instruction
+	eachInstr(hl, func(ins ssa.Instruction) {
+		c, ok := ins.(*ssa.Call)
+		if !ok {
+			return
+		}
+		switch calleeName(c.Common()) {
+		case "(*martian.proxyConn).maybeHandshakeTLS":
+			hs = ins
+		case "invoke net.Conn.RemoteAddr":
+			if describe(c.Common().Value) == "$1" {
+				addrCalls = append(addrCalls, ins)
+			}
+		}
+	})
+	if hs == nil {
+		r.missing("call of maybeHandshakeTLS in handleLoop")
+	}
+	good := false
+	for _, a := range addrCalls {
+		if instrDominates(a, hs) {
+			good = true
+		}
+	}
+	r.check(good, "handleLoop#address-before-handshake", hs.Pos(), "conn.RemoteAddr() is evaluated before the TLS handshake", "the TLS handshake starts before the connection's address was asked for: on a TLS listener stacked on a PROXY-protocol listener the PROXY header is then awaited inside the handshake, under the handshake timeout instead of its own")
+}
+
+func c19r6(r *R) {
+	keyField := func(name string) bool { return name == "KeyFile" || name == "CAKeyFile" }
+	cleanSink := map[string]bool{"forwarder.redactFileOrBase64": true, "bind.RedactBase64": true}
+	type src struct {
+		v    ssa.Value
+		what string
+	}
+	n := 0
+	for _, fn := range r.modFuncs() {
+		nm := fname(fn)
+		if strings.HasPrefix(nm, "e2e/") || strings.Contains(nm, "utils/") || strings.HasPrefix(nm, "cmd/") {
+			continue
+		}
+		var sources []src
+		eachInstr(fn, func(ins ssa.Instruction) {
+			u, ok := ins.(*ssa.UnOp)
+			if !ok || u.Op != token.MUL {
+				return
+			}
+			fa, ok := u.X.(*ssa.FieldAddr)
+			if !ok || !keyField(fieldName(fa.X.Type(), fa.Field)) {
+				return
+			}
+			sources = append(sources, src{u, fieldName(fa.X.Type(), fa.Field)})
+		})
+		for _, s := range sources {
+			n++
+			var bad []string
+			seen := map[ssa.Value]bool{}
+			var walk func(v ssa.Value, depth int)
+			walk = func(v ssa.Value, depth int) {
+				if seen[v] || depth > 4 || v.Referrers() == nil {
+					return
+				}
+				seen[v] = true
+				for _, ref := range *v.Referrers() {
+					switch x := ref.(type) {
+					case *ssa.MakeInterface:
+						bad = append(bad, "boxed for a formatting/logging call at "+r.rel(x.Pos()))
+					case *ssa.BinOp:
+						if x.Op == token.ADD {
+							bad = append(bad, "concatenated into a string at "+r.rel(x.Pos()))
+						}
+					case *ssa.Phi:
+						walk(x, depth)
+					case *ssa.Convert:
+						walk(x, depth)
+					case *ssa.ChangeType:
+						walk(x, depth)
+					case ssa.CallInstruction:
+						g := staticCallee(x.Common())
+						if g == nil || !inModule(g) || len(g.Blocks) == 0 || cleanSink[fname(g)] {
+							continue
+						}
+						for i, a := range x.Common().Args {
+							if a == v && i < len(g.Params) {
+								walk(g.Params[i], depth+1)
+							}
+						}
+					}
+				}
+			}
+			walk(s.v, 0)
+			r.check(len(bad) == 0, nm+"#"+s.what, s.v.(ssa.Instruction).Pos(), "compared, loaded or redacted only", "the "+s.what+" option's value is "+strings.Join(dedupStrings(bad), "; ")+": given as a data: URI it is the private key itself")
+		}
+	}
+}
